@@ -118,6 +118,10 @@ Section Panoc.
       let r := psi_yhat (ixh i) in
       mkIt (ix i) (ixh i) (igrad i) (igradh i) (ip i) (snd r) (ipsi i) (fst r) (igam i) (iL i) (ipp i) (igp i) (ih i) false.
   Definition cnt_psih (c : counters) : counters := if p_eager P then inc_pg c else inc_py c.
+  (* exit block with eager_gradient_eval (eval_ψ_grad_ψ does not return ŷ):  curr->ψx̂ = problem.eval_ψ(curr->x̂, y, Σ, curr->ŷx̂) *)
+  Definition eval_psih_exit (i : iterate) : iterate :=
+    let r := psi_yhat (ixh i) in
+    mkIt (ix i) (ixh i) (igrad i) (igradh i) (ip i) (snd r) (ipsi i) (fst r) (igam i) (iL i) (ipp i) (igp i) (ih i) (ihave i).
   (* eval_grad_ψx̂(i): eval_grad_L(x̂, ŷx̂) *)
   Definition eval_gradh (i : iterate) : iterate :=
     mkIt (ix i) (ixh i) (igrad i) (grad_L (ixh i) (iyh i)) (ip i) (iyh i) (ipsi i) (ipsih i) (igam i) (iL i) (ipp i) (igp i) (ih i) true.
@@ -283,10 +287,10 @@ Section Panoc.
     | _ =>
         let rec := mkCb k curr [] (- n1) ε st in
         let c2 := inc_cb c1 in
-        (* if (Converged || Interrupted || always_overwrite) { if (eager) eval_ψx̂(curr); err_z, x, y written } *)
+        (* if (Converged || Interrupted || always_overwrite) { if (eager) ψx̂ = eval_ψ(x̂, y, Σ, ŷx̂); err_z, x, y written } *)
         let ow := overwrites st (o_always P) in
-        let curr_f := if ow && p_eager P then eval_psih curr else curr in
-        let c3 := if ow && p_eager P then inc_pg c2 else c2 in
+        let curr_f := if ow && p_eager P then eval_psih_exit curr else curr in
+        let c3 := if ow && p_eager P then inc_py c2 else c2 in
         let '(xo, yo, eo) := exit_block st (o_always P) x_in y_in errz_in (ixh curr_f) (iyh curr_f) Σ in
         PExit (mkOut st k ε xo yo eo curr_f (st_stats s) (rev (rec :: st_log s)) c3)
     end.
